@@ -32,6 +32,7 @@ def bounds(tier):
     return {"area": "13 log points 1e-6..1", "gmax": "5 log points 0.1..10", "dgdt": "7 log points 1e2..1e5", "dt": "5 log points 1e-6..1e-4",
             "boundaries": "triangle/trapezoid switch area (ramppts*dt*gmax) and +-1 ulp; areas where ceil() arguments are integers, +-1 ulp; min_trap_grad: area = dgdt*dt^2/2 * {1/2, 1, 2}",
             "max samples": 2e5 if tier == "quick" else 2e6,
+            "ramp lengths": "every ramp length 1..%d in both regimes (2 flat-top lengths), 2 (dgdt, dt) pairs" % (3000 if tier == "thorough" else 420),
             "spokes": "ordered location sets of 1-3 distinct points from {0,+-5,+-20}^2 and from {0,+-1,+-2.5}^2 (quick: 1-2 points + a thinned set of triples), 3 hardware settings"}
 
 
@@ -68,6 +69,19 @@ def gen_cases(tier, seed):
                 skipped += 1
                 continue
             cases.append(dict(kind="trap", area=area, gmax=float(gmax), dgdt=float(dgdt), dt=float(dt)))
+    # every ramp length: the sample counts are ceil()s of real quotients, so the log grid above visits only a few dozen
+    # distinct ramp lengths; here each r = 1..R is produced on purpose, in the trapezoid regime (gmax chosen so that
+    # ceil(gmax/dgdt/dt) = r, with a short and a long flat top) and in the triangle regime (area chosen so that
+    # ceil(sqrt(area dgdt)/dgdt/dt) = r)
+    R = 3000 if T else 420
+    for dgdt, dt in ((1e4, 1e-5), (15000.0, 4e-6)):
+        for r in range(1, R + 1):
+            gmax = (r - 0.5) * dgdt * dt
+            tri = r * dt * gmax
+            for area in (1.5 * tri, tri + 7.3 * gmax * dt):
+                cases.append(dict(kind="trap", area=float(area), gmax=float(gmax), dgdt=dgdt, dt=dt, sweep="ramp"))
+            area = ((r - 0.5) * dt) ** 2 * dgdt
+            cases.append(dict(kind="trap", area=float(area), gmax=float(10 * r * dgdt * dt), dgdt=dgdt, dt=dt, sweep="ramp"))
     locs = [(x, y) for x in (0, 5, -5, 20, -20) for y in (0, 5, -5, 20, -20)]
     sets = [[p] for p in locs] + [list(p) for p in itertools.permutations(locs, 2)]
     trip = [list(p) for p in itertools.permutations(locs, 3)]
